@@ -44,6 +44,11 @@ def run(tier, scratch, t0, replay=None):
         for i in range(n):
             labels, payload, codes = MS.make_stream(rng, v)
             streams.append({"hex": binascii.hexlify(payload).decode(), "labels": labels, "codes": codes})
+        if part == 0:
+            # string-like objects above 1 MiB, one per type code the version has (thorough: every part, other lengths)
+            for form in MS.big_forms(v):
+                labels, payload, codes = MS.make_big_stream(rng, v, form)
+                streams.append({"hex": binascii.hexlify(payload).decode(), "labels": labels, "codes": codes})
         tag = "ms%d%d-%d" % (v[0], v[1], part)
         sp = os.path.join(scratch.root, tag + ".streams.json")
         with open(sp, "w") as f:
